@@ -6,6 +6,8 @@ Explored (not proved): noodles' multithreaded BGZF reader, OS pipes, hash seeds 
 -/
 import SfsModel.Model.Detect
 import SfsModel.Lemmas.Samples
+import SfsModel.Lemmas.IoModel
+import SfsModel.Lemmas.Detect
 namespace Sfs.C12
 open Sfs
 
@@ -16,12 +18,14 @@ theorem detect_magic (inflate3 : List Nat → Option (List Nat)) (pfx : List Nat
         detectContainer inflate3 pfx = .ok (if b = bcfMagic then .bcfGz else .vcfGz)) ∧
     (gzipMagic.isPrefixOf pfx = false → bcfMagic.isPrefixOf pfx = true → detectContainer inflate3 pfx = .ok .bcfRaw) ∧
     (gzipMagic.isPrefixOf pfx = false → bcfMagic.isPrefixOf pfx = false → detectContainer inflate3 pfx = .ok .vcf) := by
-  sorry
+  exact ⟨fun hg b hb => detectContainer_gz inflate3 pfx b hg hb,
+    fun hg hb => detectContainer_bcfRaw inflate3 pfx hg hb,
+    fun hg hb => detectContainer_vcf inflate3 pfx hg hb⟩
 
 /-- The prefix used for detection does not depend on how the stream is chunked (no failure injected). -/
 theorem prefix_schedule_free (r : Rd) (h0 : r.avail = 0) (hf : r.failAt = none) :
     ∃ r', readPrefix r = .ok (r.data.take 65536, r') := by
-  sorry
+  exact readPrefix_schedule_free r (Rd.ok_of_avail_zero r h0 hf)
 
 /-- Encoders of the four containers, abstractly: what they must satisfy. -/
 structure Codec where
@@ -42,17 +46,47 @@ structure Codec where
     `createCli` of the call set — identical across containers by construction. -/
 theorem pipeline_factors (k : Codec) (a : CreateArgs) (c : Container) (cs : CallSet) :
     createFromBytes k.inflate3 k.decode a (k.encode c cs) = some (createCli a cs.1 cs.2) := by
-  sorry
+  apply createFromBytes_of_detect _ _ a _ c cs _ (k.roundtrip c cs)
+  cases c with
+  | vcf => exact detectContainer_vcf _ _ (k.vcf_magic cs).1 (k.vcf_magic cs).2
+  | bcfRaw => exact detectContainer_bcfRaw _ _ (k.bcf_magic cs).1 (k.bcf_magic cs).2
+  | bcfGz => exact detectContainer_bcfGz _ _ (k.bcfgz_magic cs).1 (k.bcfgz_magic cs).2
+  | vcfGz =>
+    obtain ⟨hg, b, hb, hne⟩ := k.vcfgz_magic cs
+    exact detectContainer_vcfGz _ _ b hg hb hne
 
 theorem containers_agree (k : Codec) (a : CreateArgs) (c c' : Container) (cs : CallSet) :
     createFromBytes k.inflate3 k.decode a (k.encode c cs) = createFromBytes k.inflate3 k.decode a (k.encode c' cs) := by
-  sorry
+  rw [pipeline_factors k a c cs, pipeline_factors k a c' cs]
+
+
+/-- The same without assuming an encoder exists: whenever detection picks container `c` and the codec of `c` decodes the
+    bytes to the call set `cs`, the outcome is `createCli` of `cs` — so two inputs (any containers, any block layout)
+    that decode to the same call set give the same stdout, summary and exit status. -/
+theorem pipeline_factors_decoded (inflate3 : List Nat → Option (List Nat)) (decode : Container → List Nat → Option CallSet)
+    (a : CreateArgs) (bytes : List Nat) (c : Container) (cs : CallSet)
+    (hdet : detectContainer inflate3 (bytes.take 65536) = .ok c) (hdec : decode c bytes = some cs) :
+    createFromBytes inflate3 decode a bytes = some (createCli a cs.1 cs.2) := by
+  simp [createFromBytes, hdet, hdec]
+
+theorem same_calls_same_output (inflate3 : List Nat → Option (List Nat)) (decode : Container → List Nat → Option CallSet)
+    (a : CreateArgs) (b b' : List Nat) (c c' : Container) (cs : CallSet)
+    (hdet : detectContainer inflate3 (b.take 65536) = .ok c) (hdec : decode c b = some cs)
+    (hdet' : detectContainer inflate3 (b'.take 65536) = .ok c') (hdec' : decode c' b' = some cs) :
+    createFromBytes inflate3 decode a b = createFromBytes inflate3 decode a b' := by
+  rw [pipeline_factors_decoded inflate3 decode a b c cs hdet hdec, pipeline_factors_decoded inflate3 decode a b' c' cs hdet' hdec']
+
+/-- non-vacuity of the hypotheses of `same_calls_same_output`: a toy codec on two different byte strings. -/
+example : ∃ (decode : Container → List Nat → Option CallSet) (b b' : List Nat) (cs : CallSet),
+    b ≠ b' ∧ detectContainer (fun _ => some bcfMagic) (b.take 65536) = .ok .bcfGz ∧ decode .bcfGz b = some cs ∧
+    detectContainer (fun _ => some bcfMagic) (b'.take 65536) = .ok .vcf ∧ decode .vcf b' = some cs :=
+  ⟨fun _ _ => some (["s0"], []), [0x1f, 0x8b, 8], [35, 35], (["s0"], []), by decide, rfl, rfl, rfl, rfl⟩
 
 /-- shape_by_lookup: the output shape reads the population sizes only by key; the order in which the sample map (or a
     hash map built from it) is iterated cannot reach the output. -/
 theorem shape_by_lookup (m m' : List (String × Nat)) (hp : m.Perm m') :
     numPops m = numPops m' ∧ mapShape m = mapShape m' := by
-  sorry
+  exact ⟨numPops_perm hp, mapShape_perm hp⟩
 
 /-! non-vacuity -/
 example : (detectContainer (fun _ => some bcfMagic) [0x1f, 0x8b, 8, 4]).toOption = some .bcfGz ∧
